@@ -22,6 +22,7 @@ import math
 import os
 import time
 from fractions import Fraction
+import struct
 
 os.environ['TZ'] = 'VRF-05:45'
 time.tzset()
@@ -444,6 +445,8 @@ def model_value(m):
         return ['b', m['b']]
     if 'q' in m:
         return ['q', Fraction(m['q'][0], m['q'][1]), m['q'][0], m['q'][1]]
+    if 'fb' in m:      # a double computed by the model (FloatRound.roundRat / divBits), IEEE bits
+        return ['fb', struct.unpack('>d', struct.pack('>Q', int(m['fb'])))[0]]
     return ['err', m.get('err', '?')]
 
 
@@ -452,6 +455,8 @@ def same(real, other):
     equal to the correctly rounded quotient (1 ulp allowed) while numerator and denominator are exactly
     representable; beyond 2^53 the code's float(int) conversions of the operands round first, which can move the
     quotient by up to 3 ulps (0.5 + 1 + 1 + 0.5)"""
+    if other[0] == 'fb':     # model: every float step of the code is modelled exactly -> bit for bit
+        return real[0] == 'fl' and struct.pack('>d', real[1]) == struct.pack('>d', other[1])
     if other[0] == 'q':
         fr = other[1]
         big = len(other) < 4 or abs(other[2]) >= 2 ** 53 or abs(other[3]) >= 2 ** 53     # the unreduced operands
@@ -487,6 +492,8 @@ def show(c):
             return repr(c)
     if c[0] == 'ts':
         return 'timespan(%d us)' % c[1]
+    if c[0] == 'fb':
+        return '%r (bits %016x)' % (c[1], struct.unpack('>Q', struct.pack('>d', c[1]))[0])
     if c[0] == 'q':
         return '%r (= %s/%s)' % (c[1].numerator / c[1].denominator, c[1].numerator, c[1].denominator)
     return repr(c[1])
